@@ -2,7 +2,7 @@
    (order, tests, carve-out constants and ALLOWED_EXTENSIONS come from the translator: Gen/PathsGen.v),
    the late symlink re-check, the schema-name guard of load_schema_by_name, resolve_hermetic_standard
    and validate_source_uri; and the theorems of C19 about them, for ALL trees and ALL path strings. *)
-From OV Require Import Base.Strs Path.FsTree Path.Realpath Gen.PathsGen.
+From OV Require Import Base.Strs Path.FsTree Path.Realpath Path.PyRealpath Path.NoLinks Gen.PathsGen.
 Open Scope N_scope.
 
 Inductive reason : Type := RDotDot | RSymlink | RResolve | RExt.
@@ -495,30 +495,269 @@ Qed.
 Definition second_is_colon (s : str) : bool := match s with _ :: c :: _ => N.eqb c c_colon | _ => false end.
 
 Inductive uri_res : Type := UOk (p : path) | URefused | URaise.
-Definition validate_uri (fs : node) (base : path) (uri : str) : uri_res :=
-  match resolve fs base with                                   (* base_path = base_path.resolve() *)
-  | ResErr => URaise
-  | ResOk b =>
-      if is_abs_str uri || second_is_colon uri then URefused    (* check 1 *)
-      else
-        let cand := pjoin (mkpp 1 b) (pparse uri) in            (* candidate = base_path / source_uri *)
-        match resolve fs (ptail cand) with                       (* candidate.resolve(): RuntimeError on a cycle escapes; *)
-        | ResErr => if has_nul (ptail cand) then URefused else URaise   (* ValueError (NUL) is caught *)
-        | ResOk r => if path_prefixb b r then UOk r else URefused      (* resolved.relative_to(base_path) *)
-        end
+
+(* the resolution step shared by validate_source_uri and _check_single_snapshot, as the translator reads it:
+     mode 0   try: resolved = candidate.resolve()
+     mode 1   try: resolved = candidate.resolve(); resolved = Path(os.path.realpath(resolved))          (repo fix ea316ac)
+     mode 2   try: resolved = _resolve_without_links(candidate)                                        (repo fix 3bf4eb7)
+                   = Path(os.path.realpath(candidate.resolve())), then every prefix of it must pass `not is_symlink()`
+     except (OSError, ValueError [, RuntimeError]): refuse          catches = RuntimeError is in the tuple
+   The resolution functions are CPython's real algorithm (PyRealpath.v): each may stop at a symlink loop and return the
+   remaining components UNRESOLVED; `complete` says whether the LAST realpath resolved everything. *)
+Inductive step_res : Type := StOk (r : path) (complete : bool) | StRefuse | StRaise.
+Definition resolve_steps (mode : N) (catches : bool) (fs : node) (cand : path) : step_res :=
+  match resolve_py fs cand with
+  | PRvalue => StRefuse                                   (* ValueError: embedded NUL *)
+  | PRruntime => if catches then StRefuse else StRaise
+  | PRfuel => StRaise                                     (* deeper than the model's bound: out of model *)
+  | PRok q ok =>
+      if N.eqb mode 0 then StOk q ok
+      else match pyrealpath fs q with
+           | PFuel => StRaise
+           | PValue => StRefuse
+           | POk r ok2 =>
+               if N.eqb mode 1 then StOk r ok2
+               else if nolinks fs r then StOk r ok2 else StRefuse       (* OSError(ELOOP) of the helper; ENAMETOOLONG too *)
+           end
   end.
+
+Definition validate_uri_x (mode : N) (catches : bool) (fs : node) (base : path) (uri : str) : uri_res * bool :=
+  match resolve_py fs base with                              (* base_path = base_path.resolve(): exceptions escape *)
+  | PRok b _ =>
+      if is_abs_str uri || second_is_colon uri then (URefused, true)     (* check 1 *)
+      else
+        (* candidate = base_path / source_uri ; then the resolution step *)
+        match resolve_steps mode catches fs (ptail (pjoin (mkpp 1 b) (pparse uri))) with
+        | StRefuse => (URefused, true)
+        | StRaise => (URaise, true)
+        | StOk r ok => if path_prefixb b r then (UOk r, ok) else (URefused, ok)    (* resolved.relative_to(base_path) *)
+        end
+  | _ => (URaise, true)
+  end.
+Definition validate_uri (mode : N) (catches : bool) fs base uri : uri_res := fst (validate_uri_x mode catches fs base uri).
+(* did the last resolution step resolve every link?  (false = it stopped at a symlink loop) *)
+Definition uri_complete (mode : N) (catches : bool) fs base uri : bool := snd (validate_uri_x mode catches fs base uri).
+(* validate_source_uri of the current source *)
+Definition validate_uri_src := validate_uri paths_uri_resolution paths_uri_catches_runtime.
+Definition uri_complete_src := uri_complete paths_uri_resolution paths_uri_catches_runtime.
 
 Lemma pin_uri_skeleton : length paths_uri_skeleton = 6%nat. Proof. reflexivity. Qed.
 
-Theorem source_uri_confined fs base uri p : validate_uri fs base uri = UOk p ->
-  exists b rest, resolve fs base = ResOk b /\ p = b ++ rest /\ real fs p.
+Lemma resolve_steps_complete mode catches fs cand r : resolve_steps mode catches fs cand = StOk r true -> real fs r.
 Proof.
-  unfold validate_uri. destruct (resolve fs base) as [b|] eqn:B; [|discriminate].
-  destruct (is_abs_str uri || second_is_colon uri); [discriminate|].
-  destruct (resolve fs (ptail (pjoin (mkpp 1 b) (pparse uri)))) as [r|] eqn:R; [|destruct (has_nul _); discriminate].
-  destruct (path_prefixb b r) eqn:P; [|discriminate]. intro X. inversion X; subst p.
-  destruct (path_prefixb_spec _ _ P) as (rest & E). exists b, rest. repeat split; try assumption.
-  unfold resolve in R. destruct (has_nul _); [discriminate|].
-  destruct (realpath rp_fuel fs [] _) as [r'|] eqn:RR; [|discriminate]. inversion R; subst r'.
-  exact (realpath_real fs _ _ _ _ (real_nil fs) RR).
+  unfold resolve_steps, resolve_py.
+  destruct (pyrealpath fs cand) as [q ok| |] eqn:E1; try discriminate.
+  destruct (has_nul q); [discriminate|].
+  assert (X : (if N.eqb mode 0 then StOk q ok
+               else match pyrealpath fs q with
+                    | PFuel => StRaise | PValue => StRefuse
+                    | POk r0 ok2 => if N.eqb mode 1 then StOk r0 ok2 else if nolinks fs r0 then StOk r0 ok2 else StRefuse
+                    end) = StOk r true -> real fs r).
+  { destruct (N.eqb mode 0).
+    - intro H. inversion H; subst q ok. exact (proj1 (pyrealpath_complete_real _ _ _ E1)).
+    - destruct (pyrealpath fs q) as [r2 ok2| |] eqn:E2; try discriminate.
+      assert (Y : StOk r2 ok2 = StOk r true -> real fs r)
+        by (intro H; inversion H; subst r2 ok2; exact (proj1 (pyrealpath_complete_real _ _ _ E2))).
+      destruct (N.eqb mode 1); [exact Y|]. destruct (nolinks fs r2); [exact Y|discriminate]. }
+  destruct (kstat fs q); try exact X; destruct catches; discriminate.
 Qed.
+
+(* mode 2 (and any mode other than 0 and 1): whatever the two resolutions did, an accepted result passed the link-free test *)
+Lemma resolve_steps_mode2 mode catches fs cand r ok : N.eqb mode 0 = false -> N.eqb mode 1 = false ->
+  resolve_steps mode catches fs cand = StOk r ok -> real fs r /\ forall q, In q (inits1 r) -> p_is_symlink fs q = false.
+Proof.
+  intros M0 M1. unfold resolve_steps. rewrite M0, M1.
+  destruct (resolve_py fs cand) as [q ok1| | |]; try discriminate; [|destruct catches; discriminate].
+  unfold pyrealpath. destruct (jrp rp_fuel fs [] [] q) as [x ok2 sn| |]; try discriminate.
+  destruct (nolinks fs (normpath x)) eqn:N; [|discriminate]. intro H. inversion H; subst r ok.
+  split; [exact (nolinks_real fs _ (normpath_is_clean x) N)|intros q0 Hq; exact (nolinks_no_symlink fs _ q0 N Hq)].
+Qed.
+
+(* An accepted URI lies, component-wise, below the resolved base; and if the last resolution step was complete no
+   component of the returned path is a link.  WITHOUT that clause the statement is false of the code -- see
+   uri_full / the refutations in PathPins.v (finding: a resolution that stops at a symlink loop). *)
+Theorem source_uri_confined mode catches fs base uri p : validate_uri mode catches fs base uri = UOk p ->
+  exists b c rest, resolve_py fs base = PRok b c /\ p = b ++ rest /\
+                   (uri_complete mode catches fs base uri = true -> real fs p).
+Proof.
+  unfold validate_uri, uri_complete, validate_uri_x. destruct (resolve_py fs base) as [b c| | |] eqn:B; try discriminate.
+  destruct (is_abs_str uri || second_is_colon uri); [discriminate|].
+  destruct (resolve_steps mode catches fs (ptail (pjoin (mkpp 1 b) (pparse uri)))) as [r ok| |] eqn:R; try discriminate.
+  destruct (path_prefixb b r) eqn:P; [|discriminate]. cbn [fst snd]. intro X. inversion X; subst p.
+  destruct (path_prefixb_spec _ _ P) as (rest & E). exists b, c, rest. repeat split; try assumption.
+  intro Hok. subst ok. exact (resolve_steps_complete _ _ _ _ _ R).
+Qed.
+
+(* the statement of the property text: the returned path names a file below the base, i.e. none of its components is a link *)
+Definition uri_full (mode : N) (catches : bool) : Prop :=
+  forall fs base uri p, validate_uri mode catches fs base uri = UOk p -> real fs p.
+
+(* ---- check_staleness: _check_single_snapshot --------------------------------------------------------- *)
+Inductive stale_res : Type := SHashed (p : path) | SError | SRaise.
+Definition stale_uri (mode : N) (catches : bool) (fs : node) (base root : path) (uri : str) : stale_res :=
+  if is_abs_str uri || second_is_colon uri then SError
+  else match resolve_steps mode catches fs (ptail (pjoin (mkpp 1 base) (pparse uri))) with
+       | StRefuse => SError
+       | StRaise => SRaise
+       | StOk r _ =>
+           match resolve_py fs root with               (* effective_root = (allowed_root or base_path).resolve() *)
+           | PRok rt _ =>
+               if path_prefixb rt r then                (* source_path.relative_to(effective_root) *)
+                 match p_exists fs r with               (* source_path.exists() *)
+                 | ExTrue => match p_read fs r with Some _ => SHashed r | None => SError end   (* open + hash; errors -> ERROR *)
+                 | ExFalse => SError
+                 | ExRaise => SRaise
+                 end
+               else SError
+           | _ => SRaise
+           end
+       end.
+Definition stale_uri_src := stale_uri paths_stale_resolution paths_stale_catches_runtime.
+
+Theorem stale_confined mode catches fs base root uri p : stale_uri mode catches fs base root uri = SHashed p ->
+  exists rt c rest, resolve_py fs root = PRok rt c /\ p = rt ++ rest.
+Proof.
+  unfold stale_uri. destruct (is_abs_str uri || second_is_colon uri); [discriminate|].
+  destruct (resolve_steps mode catches fs _) as [r ok| |]; try discriminate.
+  destruct (resolve_py fs root) as [rt c| | |] eqn:B; try discriminate.
+  destruct (path_prefixb rt r) eqn:P; [|discriminate].
+  destruct (p_exists fs r); try discriminate. destruct (p_read fs r); [|discriminate].
+  intro X. inversion X; subst p. destruct (path_prefixb_spec _ _ P) as (rest & E). exists rt, c, rest. split; [reflexivity|exact E].
+Qed.
+
+(* ---- witnesses: a cyclic link, `..`, and a link to a file outside the base ----
+   /sb/loop.md -> loop.md (cycle)   /sb/lf.md -> ../out/secret.md   /sb/k2 -> missing/../loop.md/../lf.md   /out/secret.md *)
+Definition w_lf : seg := [108;102;46;109;100].                          (* lf.md *)
+Definition w_fs_cycle : node :=
+  mk_fs [([w_sb], NDir []); ([w_out], NDir []); ([w_out; [115;101;99;114;101;116;46;109;100]], NFile [83]);
+         ([w_sb; [108;111;111;112;46;109;100]], NLink [108;111;111;112;46;109;100]);
+         ([w_sb; w_lf], NLink [46;46;47;111;117;116;47;115;101;99;114;101;116;46;109;100]);
+         ([w_sb; [107;50]], NLink [109;105;115;115;105;110;103;47;46;46;47;108;111;111;112;46;109;100;47;46;46;47;108;102;46;109;100])].
+Definition w_uri_cycle : str := [108;111;111;112;46;109;100;47;46;46;47;108;102;46;109;100].     (* loop.md/../lf.md *)
+Definition w_uri_cycle2 : str := [108;111;111;112;46;109;100;47;46;46;47;107;50].               (* loop.md/../k2 *)
+
+(* the defect repaired by repo fix ea316ac, as a statement about the ONE-step resolution: resolve() alone returns
+   /sb/lf.md -- a link to /out/secret.md -- and the containment check passes *)
+Lemma one_step_accepts_cycle_dotdot :
+  validate_uri 0 false w_fs_cycle [w_sb] w_uri_cycle = UOk [w_sb; w_lf] /\
+  uri_complete 0 false w_fs_cycle [w_sb] w_uri_cycle = false /\
+  is_link_o (raw w_fs_cycle [w_sb; w_lf]) = true /\
+  kstat w_fs_cycle [w_sb; w_lf] = KFound [w_out; [115;101;99;114;101;116;46;109;100]] (NFile [83]).
+Proof. vm_compute. repeat split; reflexivity. Qed.
+
+Theorem uri_full_refuted_one_step : ~ uri_full 0 false.
+Proof.
+  intro F. pose proof (F w_fs_cycle [w_sb] w_uri_cycle _ (proj1 one_step_accepts_cycle_dotdot)) as R.
+  specialize (R [w_sb; w_lf] [] (eq_sym (app_nil_r _)) ltac:(discriminate)). vm_compute in R. discriminate.
+Qed.
+
+(* regression for ea316ac: with the second step (and RuntimeError caught) the same URI is refused; so is a bare cycle *)
+Example two_step_refuses_cycle_dotdot :
+  validate_uri 1 true w_fs_cycle [w_sb] w_uri_cycle = URefused /\
+  validate_uri 1 true w_fs_cycle [w_sb] [108;111;111;112;46;109;100] = URefused /\
+  validate_uri 1 false w_fs_cycle [w_sb] [108;111;111;112;46;109;100] = URaise.
+Proof. vm_compute. repeat split; reflexivity. Qed.
+
+(* ... but the second step is the same algorithm and can stop at a loop again: via /sb/k2 the two-step resolution
+   still returns /sb/lf.md *)
+Lemma two_step_accepts_cycle_via_link :
+  validate_uri 1 true w_fs_cycle [w_sb] w_uri_cycle2 = UOk [w_sb; w_lf] /\
+  uri_complete 1 true w_fs_cycle [w_sb] w_uri_cycle2 = false /\
+  is_link_o (raw w_fs_cycle [w_sb; w_lf]) = true.
+Proof. vm_compute. repeat split; reflexivity. Qed.
+
+Theorem uri_full_refuted_two_step : ~ uri_full 1 true.
+Proof.
+  intro F. pose proof (F w_fs_cycle [w_sb] w_uri_cycle2 _ (proj1 two_step_accepts_cycle_via_link)) as R.
+  specialize (R [w_sb; w_lf] [] (eq_sym (app_nil_r _)) ltac:(discriminate)). vm_compute in R. discriminate.
+Qed.
+
+(* the completeness hypothesis is satisfiable on a non-trivial value: a live link inside the base is followed and accepted *)
+Example uri_complete_nonvacuous :
+  validate_uri 1 true w_fs_live [w_sb] [100;47;46;46;47;100] = UOk [w_sb; [100]] /\
+  uri_complete 1 true w_fs_live [w_sb] [100;47;46;46;47;100] = true /\
+  validate_uri 1 true w_fs_live [w_sb] [108;110;107;100] = URefused.
+Proof. vm_compute. repeat split; reflexivity. Qed.
+
+(* the statement about the pre-fix two-step resolution (ea316ac), kept under the name the coordinator asked for *)
+Theorem two_step_was_wrong : ~ uri_full 1 true.
+Proof. exact uri_full_refuted_two_step. Qed.
+
+(* ---- mode 2: the link-free helper -------------------------------------------------------------------- *)
+(* with the helper the text's statement holds, for either `except` tuple *)
+Theorem uri_full_link_free catches : uri_full 2 catches.
+Proof.
+  intros fs base uri p. unfold validate_uri, validate_uri_x.
+  destruct (resolve_py fs base) as [b c| | |]; try discriminate.
+  destruct (is_abs_str uri || second_is_colon uri); [discriminate|].
+  destruct (resolve_steps 2 catches fs (ptail (pjoin (mkpp 1 b) (pparse uri)))) as [r ok| |] eqn:R; try discriminate.
+  destruct (path_prefixb b r); [|discriminate]. cbn [fst]. intro X. inversion X; subst p.
+  exact (proj1 (resolve_steps_mode2 2 catches fs _ r ok eq_refl eq_refl R)).
+Qed.
+
+Theorem stale_link_free catches fs base root uri p : stale_uri 2 catches fs base root uri = SHashed p ->
+  real fs p /\ forall q, In q (inits1 p) -> p_is_symlink fs q = false.
+Proof.
+  unfold stale_uri. destruct (is_abs_str uri || second_is_colon uri); [discriminate|].
+  destruct (resolve_steps 2 catches fs _) as [r ok| |] eqn:R; try discriminate.
+  destruct (resolve_py fs root) as [rt c| | |]; try discriminate.
+  destruct (path_prefixb rt r); [|discriminate].
+  destruct (p_exists fs r); try discriminate. destruct (p_read fs r); [|discriminate].
+  intro X. inversion X; subst p. exact (resolve_steps_mode2 2 catches fs _ r ok eq_refl eq_refl R).
+Qed.
+
+(* The same two entry points over ANY resolution function R (NoLinks.v: nothing is assumed about R, not even that it
+   follows links): base b already resolved, candidate = b / uri, helper = normpath (R ...) + link-free test, containment
+   on components.  Accepted => below the base, real, and no prefix is a link for the kernel. *)
+Section AnyResolution.
+  Variable R : node -> path -> option path.
+  Definition validate_uri_any (fs : node) (b : path) (uri : str) : uri_res :=
+    if is_abs_str uri || second_is_colon uri then URefused
+    else match resolve_without_links R fs (ptail (pjoin (mkpp 1 b) (pparse uri))) with
+         | None => URefused
+         | Some r => if path_prefixb b r then UOk r else URefused
+         end.
+  Definition stale_uri_any (fs : node) (b root : path) (uri : str) : stale_res :=
+    if is_abs_str uri || second_is_colon uri then SError
+    else match resolve_without_links R fs (ptail (pjoin (mkpp 1 b) (pparse uri))) with
+         | None => SError
+         | Some r => if path_prefixb root r
+                     then match p_exists fs r with
+                          | ExTrue => match p_read fs r with Some _ => SHashed r | None => SError end
+                          | ExFalse => SError | ExRaise => SRaise end
+                     else SError
+         end.
+
+  Theorem source_uri_confined_any fs b uri p : validate_uri_any fs b uri = UOk p ->
+    (exists rest, p = b ++ rest) /\ real fs p /\ forall q, In q (inits1 p) -> p_is_symlink fs q = false.
+  Proof.
+    unfold validate_uri_any. destruct (is_abs_str uri || second_is_colon uri); [discriminate|].
+    destruct (resolve_without_links R fs _) as [r|] eqn:E; [|discriminate].
+    destruct (path_prefixb b r) eqn:P; [|discriminate]. intro X. inversion X; subst p.
+    destruct (resolve_without_links_real R fs _ r E) as (H1 & _ & H3).
+    split; [exact (path_prefixb_spec _ _ P)|split; assumption].
+  Qed.
+
+  Theorem staleness_confined_any fs b root uri p : stale_uri_any fs b root uri = SHashed p ->
+    (exists rest, p = root ++ rest) /\ real fs p /\ forall q, In q (inits1 p) -> p_is_symlink fs q = false.
+  Proof.
+    unfold stale_uri_any. destruct (is_abs_str uri || second_is_colon uri); [discriminate|].
+    destruct (resolve_without_links R fs _) as [r|] eqn:E; [|discriminate].
+    destruct (path_prefixb root r) eqn:P; [|discriminate].
+    destruct (p_exists fs r); try discriminate. destruct (p_read fs r); [|discriminate].
+    intro X. inversion X; subst p. destruct (resolve_without_links_real R fs _ r E) as (H1 & _ & H3).
+    split; [exact (path_prefixb_spec _ _ P)|split; assumption].
+  Qed.
+End AnyResolution.
+
+(* regression for 3bf4eb7 by computation: the 2-link and the 3-link tree, both entry points, link-free mode *)
+Example link_free_refuses_cycles :
+  validate_uri 2 true w_fs_cycle [w_sb] w_uri_cycle = URefused /\
+  validate_uri 2 true w_fs_cycle [w_sb] w_uri_cycle2 = URefused /\
+  validate_uri 2 true w_fs_cycle [w_sb] [107;50] = URefused /\
+  stale_uri 2 true w_fs_cycle [w_sb] [w_sb] w_uri_cycle = SError /\
+  stale_uri 2 true w_fs_cycle [w_sb] [w_sb] w_uri_cycle2 = SError /\
+  stale_uri 2 true w_fs_cycle [w_sb] [w_sb] [108;111;111;112;46;109;100] = SError /\
+  stale_uri 0 false w_fs_cycle [w_sb] [w_sb] w_uri_cycle = SHashed [w_sb; w_lf] /\
+  stale_uri 0 false w_fs_cycle [w_sb] [w_sb] [108;111;111;112;46;109;100] = SRaise.
+Proof. vm_compute. repeat split; reflexivity. Qed.
